@@ -297,6 +297,18 @@ func c03Run(c *Ctx) {
 			c03Judge(c, &Case{Gen: "repl-lines", Src: strings.Join([]string{line, Print("1 + 1"), line}, "\n"), X: map[string]string{"final_newline": "1", "all_self": "1"}})
 		}
 	}
+	// a line's bindings die with the line — including what it assigned to a built-in's name, at top level or in a function
+	for _, sess := range [][]string{
+		{B["max"] + " = 10; " + Print(B["max"]), Print(BI("max", "3", "7")), Print(B["max"] + " == 10")},
+		{Fun("dbl", "v", " "+Ret("v * 2")+" ") + " " + B["round"] + " = dbl; " + Print(BI("round", "2.6")), Print(BI("round", "2.6")), Print("dbl")},
+		{Fun("set", "", " "+B["len"]+" = nil; ") + " set(); " + Print(B["len"]), Print(BI("len", "[1, 2]")), "{ " + B["abs"] + " = 1; }", Print(BI("abs", "-4")), B["abs"] + ";"},
+		{Var("keep", "5"), Print("keep"), "keep = 6;", Fun("kf", "", " "+Ret("1")+" "), Print("kf()"), Print("1 + 1")},
+		{B["min"] + " = " + B["max"] + ";", Print(BI("min", "1", "2")), For(Var("i", "0"), "i < 1", "i = i + 1", "{ "+B["keys"]+" = i; }"), Print(BI("keys", "{a: 1}"))},
+	} {
+		if c.Mine() {
+			c03Judge(c, &Case{Gen: "repl-lines", Src: strings.Join(sess, "\n"), X: map[string]string{"final_newline": "1", "all_self": "1"}})
+		}
+	}
 	// random larger programs
 	r := c.Rand("random")
 	n := c.N(15000, 300000)
